@@ -35,7 +35,7 @@ ASSUMPTIONS = [
     "exported/imported messages are compared by value with sequences normalised (LLSD notation has only arrays) and by their re-encoded datagram",
     "filter literals are restricted to what the filter grammar can express (non-negative decimal numbers, hex, quoted strings, 3/4-tuples)",
 ]
-FLOORS = {"quick": {"pairs": 3000, "leaf_errors_possible": 500, "histories": 300, "h_overflow_refilter": 50, "persist": 300,
+FLOORS = {"quick": {"pairs": 3000, "leaf_errors_possible": 500, "histories": 300, "h_overflow_refilter": 50, "persist": 300, "frozen_unparsed": 40,
                     "entry:LLUDP": 1000, "entry:EQ": 300, "entry:HTTP": 300, "entry:frozen": 300, "truth:true": 500, "truth:false": 500}}
 MANIFEST = {
     "text": "Program-level generation of filter expressions with a denotational oracle (fold of leaf truths + independent leaf "
@@ -49,6 +49,9 @@ SER = UDPMessageSerializer()
 _S = Settings()
 _S.ENABLE_DEFERRED_PACKET_PARSING = False
 DESER = UDPMessageDeserializer(settings=_S)
+_SL = Settings()
+_SL.ENABLE_DEFERRED_PACKET_PARSING = True          # what the proxy itself runs with
+DESER_LAZY = UDPMessageDeserializer(settings=_SL)
 OPS = ["==", "!=", "^=", "$=", "~=", ">", ">=", "<", "<=", "&"]
 
 _WORLD = None
@@ -69,6 +72,14 @@ def make_entry(desc):
     sess = w.viewers[0]["session"]
     region = sess.regions[0]
     kind = desc["kind"]
+    if kind == "frozen_unparsed":
+        # logged from the wire with deferred body parsing, rejected by the active filter on its name alone, so nothing looked at
+        # its body before the logger froze it (WrappingMessageLogger.add_log_entry without cache_summary)
+        msg = DESER_LAZY.deserialize(ref_datagram(desc["case"]))
+        msg.direction = Direction.OUT if desc.get("out", True) else Direction.IN
+        e = LLUDPMessageLogEntry(msg, region, sess)
+        e.freeze()
+        return e
     if kind in ("LLUDP", "frozen"):
         msg = DESER.deserialize(ref_datagram(desc["case"]))
         msg.direction = Direction.OUT if desc.get("out", True) else Direction.IN
@@ -89,7 +100,7 @@ def make_entry(desc):
 
 
 ENTRY = st.one_of(
-    st.fixed_dictionaries({"kind": st.sampled_from(["LLUDP", "LLUDP", "frozen"]), "out": st.booleans(),
+    st.fixed_dictionaries({"kind": st.sampled_from(["LLUDP", "LLUDP", "frozen", "frozen_unparsed"]), "out": st.booleans(),
                            "case": gt.message_case(finite=True, with_header=True, omit_trailing=False).map(
                                lambda c: dict(c, extra=b"", acks=c["acks"][:3]))}),
     st.fixed_dictionaries({"kind": st.just("EQ"), "name": st.sampled_from(["EnableSimulator", "ParcelProperties", "AgentGroupDataUpdate", "FooEvent"]),
@@ -144,7 +155,7 @@ def leaf_for(draw, edesc):
     """a leaf as plain data: ("bare", text) | ("cmp", selector tuple, op, literal text, literal value or RHS tag)"""
     kind = edesc["kind"]
     choice = draw(st.integers(0, 9))
-    if kind in ("LLUDP", "frozen"):
+    if kind in ("LLUDP", "frozen", "frozen_unparsed"):
         name = edesc["case"]["name"]
         blocks = edesc["case"]["blocks"]
     else:
@@ -166,14 +177,14 @@ def leaf_for(draw, edesc):
         v = draw(st.sampled_from(vals[m])) if m in vals and draw(st.booleans()) else draw(RANDOM_LIT)
         t, v = _lit(v)
         return ("cmp", ("Meta", m), op, t, v)
-    if choice == 3 and kind in ("LLUDP", "frozen"):
+    if choice == 3 and kind in ("LLUDP", "frozen", "frozen_unparsed"):
         # enum / Meta right-hand sides
         rhs = draw(st.sampled_from([("enum", "ChatType", "NORMAL"), ("enum", "PCode", "AVATAR"), ("meta", "AgentID"), ("meta", "AgentLocal"), ("meta", "Type")]))
         sel = _pick_selector(draw, name, blocks)
         op = draw(st.sampled_from(["==", "!=", "<", "&", "^="]))
         text = "%s.%s" % (rhs[1], rhs[2]) if rhs[0] == "enum" else "Meta.%s" % rhs[1]
         return ("cmp", sel, op, text, rhs)
-    if choice == 4 and kind in ("LLUDP", "frozen"):
+    if choice == 4 and kind in ("LLUDP", "frozen", "frozen_unparsed"):
         sub = draw(st.sampled_from([("ObjectUpdate", "ObjectData", "TextureEntry", "Color"), ("ObjectUpdate", "ObjectData", "ObjectData", "Position"),
                                     (name if name.isalnum() else "*", "*", "*", "*"), ("ImprovedTerseObjectUpdate", "ObjectData", "Data", "*")]))
         if draw(st.booleans()):
@@ -559,7 +570,23 @@ def persist_laws(ctx, edesc):
         return [("harness:entry:%s" % type(ex).__name__, repr(ex))]
     if ctx is not None:
         ctx.count("persist")
-    if e.type == "LLUDP":
+    if edesc["kind"] == "frozen_unparsed":
+        if ctx is not None:
+            ctx.count("frozen_unparsed")
+        twin = DESER.deserialize(ref_datagram(edesc["case"]))
+        twin.direction = Direction.OUT if edesc.get("out", True) else Direction.IN
+        before = _norm_seq(twin.to_dict(extended=True))
+        dg = bytes(SER.serialize(twin))
+        try:
+            text = e.request(beautify=False)
+            thawed = e.message
+            if _norm_seq(thawed.to_dict(extended=True)) != before or bytes(SER.serialize(thawed)) != dg:
+                out.append(("freeze-thaw:unparsed-message-differs", "%s: a message frozen before anyone parsed it thaws to a different message" % e.name))
+            if not text.startswith(("OUT ", "IN ")):
+                out.append(("freeze-thaw:unparsed-request-text", "%s: request text %r" % (e.name, text[:40])))
+        except Exception as ex:
+            out.append(("freeze-thaw:unparsed-raises:%s" % type(ex).__name__, "%s frozen before its body was parsed: %r" % (e.name, ex)))
+    elif e.type == "LLUDP":
         before = _norm_seq(e.message.to_dict(extended=True))
         dg = bytes(SER.serialize(e.message))
         # freeze / thaw
@@ -623,7 +650,7 @@ def run_shard(ctx, shard):
             n_leaves = len(leaves_of(case["expr"]))
             kind = case["entry"]["kind"]
             ctx.case((case["entry"]["kind"], render(case["expr"]), repr(case["entry"])[:300]), nontrivial=n_leaves >= 2,
-                     classes=["pairs", "entry:" + kind] + (["entry:LLUDP"] if kind == "frozen" else []))
+                     classes=["pairs", "entry:" + kind] + (["entry:LLUDP"] if kind in ("frozen", "frozen_unparsed") else []))
             return filter_laws(ctx, case)
         hyp_run(ctx, filter_case(), body, shard["n"])
     elif shard["kind"] == "histories":
